@@ -54,6 +54,27 @@ Theorem C36_unguarded_refuted :
 Proof. vm_compute. repeat split; reflexivity. Qed.
 Print Assumptions C36_unguarded_refuted.
 
+(* The strongest statement that survives the recorded findings C36-F2 / C36-F3 (the async
+   generators returned by the map / select / reject filters are element-yielding children that
+   no consumer closes): when every re-yield site on the path is guarded - which the regenerated
+   site table establishes - whatever the operation, what is left open is exactly the set of
+   live unguarded element-yielding children; nothing else, and no block / include / parent /
+   loop-filter generator. *)
+Theorem C36_only_unguarded_children_leak_partial :
+  forall p : path, forallb link p = true ->
+  leak_down p = leak_up p /\ leak_up p = length (filter negb (flat_map sides p)).
+Proof. intros p H. split; [exact (leak_down_links_true p H)|exact (leak_up_count p)]. Qed.
+Print Assumptions C36_only_unguarded_children_leak_partial.
+
+(* the filter-generator finding in the model: a loop over `xs|select(..)` is a Side child with no
+   guard under otherwise guarded sites *)
+Theorem C36_filter_generator_refuted :
+  let t := [Sub true [Emit; Side false [Await; Emit; Point]; Emit]] in
+  all_guarded t = false /\ leaked top_path t (CancelAt 0) = 1 /\ leaked top_path t (StopAfter 1) = 1 /\
+  leaked top_path t (RaiseAt 3) = 1 /\ leaked top_path t (StopAfter 2) = 0.
+Proof. vm_compute. repeat split; reflexivity. Qed.
+Print Assumptions C36_filter_generator_refuted.
+
 (* non-vacuity: extends + block + include inside a filtered loop + super() *)
 Example C36_example :
   let t := [Sub true (* parent root *)
